@@ -5,7 +5,8 @@ existing suite still passes (same count as baseline) and (3) the demo fails; the
 /repo, runs `bin/check Cxx quick` (and thorough if quick misses it), undoes it, and records everything."""
 import json, os, subprocess, sys, shutil, re, time
 pid, n = sys.argv[1], sys.argv[2]
-wt = f"/tmp/brk-{pid}"; out = f"/tmp/brk-{pid}.out"
+RND = os.environ.get("SEED_ROUND", "")
+wt = f"/tmp/brk{RND}-{pid}"; out = f"/tmp/brk{RND}-{pid}.out"
 diff = f"{out}/change{n}.diff"; demo = f"{out}/change{n}_demo.py"
 env = dict(os.environ, PYTHONPATH=f"{wt}/src", PYTHONHASHSEED="0")
 def sh(cmd, **kw):
@@ -58,7 +59,7 @@ for tier in ("quick", "thorough"):
 meta["check"] = res
 meta["detected"] = any(r["violations"] for r in res.values())
 meta["detected_with_concrete_input"] = any(v and "no-failing-input-found" not in v[0] for v in [r["violations"] for r in res.values()])
-d = f"/verif/seeded/{pid}-{n}"
+d = f"/verif/seeded/{pid}-" + (f"r{RND}-" if RND else "") + f"{n}"
 os.makedirs(d, exist_ok=True)
 shutil.copy(diff, f"{d}/patch.diff"); shutil.copy(demo, f"{d}/demo.py")
 notes = open(f"{out}/NOTES.md").read() if os.path.exists(f"{out}/NOTES.md") else ""
